@@ -1,12 +1,13 @@
 // x_handlers regenerates lean/Irismod/Gen/Handlers.lean (C16) from /repo's working tree: for each
 // module with parameters, syntactic facts about the parameter-update path —
-//   * keeper/msg_server.go  UpdateParams: the first statement compares the keeper's authority with
+//   - keeper/msg_server.go  UpdateParams: the first statement compares the keeper's authority with
 //     msg.Authority using != and returns a non-nil error, before any call of SetParams;
-//   * keeper/params.go      SetParams: `if err := params.Validate(); err != nil { return err }`
+//   - keeper/params.go      SetParams: `if err := params.Validate(); err != nil { return err }`
 //     precedes the first store write;
-//   * types/msgs.go         MsgUpdateParams.ValidateBasic calls Params.Validate;
-//   * types/genesis.go      ValidateGenesis calls Params.Validate;
-//   * genesis.go            InitGenesis stores the parameters through SetParams and panics on its error;
+//   - types/msgs.go         MsgUpdateParams.ValidateBasic calls Params.Validate;
+//   - types/genesis.go      ValidateGenesis calls Params.Validate;
+//   - genesis.go            InitGenesis stores the parameters through SetParams and panics on its error;
+//
 // plus, for farm, whether Params.Validate calls validateTaxRate and whether validateTaxRate
 // guards an unset decimal. Standard library go/ast only.
 package main
@@ -129,7 +130,9 @@ func isAuthorityGuard(s ast.Stmt) bool {
 		return false
 	}
 	l, r := dotted(be.X), dotted(be.Y)
-	pair := func(a, b string) bool { return strings.HasSuffix(a, ".authority") && strings.HasSuffix(b, ".Authority") }
+	pair := func(a, b string) bool {
+		return strings.HasSuffix(a, ".authority") && strings.HasSuffix(b, ".Authority")
+	}
 	return (pair(l, r) || pair(r, l)) && returnsError(is.Body)
 }
 
@@ -201,12 +204,16 @@ func main() {
 	if len(os.Args) > 2 {
 		outTxt = os.Args[2]
 	}
-	var sb, tx strings.Builder
+	repo := "/repo"
+	if r := os.Getenv("VERIF_REPO"); r != "" { // scratch copies only (testing a proposed fix)
+		repo = r
+	}
+	var sb, sb2, tx strings.Builder
 	sb.WriteString("/- REGENERATED on every run by extract/x_handlers from /repo's working tree. Do not edit. -/\nnamespace Irismod.Gen.Handlers\n\n")
 	sb.WriteString("structure Handler where\n  module : String\n  updateChecksAuthorityFirst : Bool\n  setParamsValidatesFirst : Bool\n  validateBasicValidates : Bool\n  validateGenesisValidates : Bool\n  initGenesisUsesSetParams : Bool\n  deriving DecidableEq, Repr\n\n")
 	sb.WriteString("def handlers : List Handler := [\n")
 	for i, m := range specs {
-		root := filepath.Join("/repo/modules", m.name)
+		root := filepath.Join(repo, "modules", m.name)
 		up := updateChecksAuthorityFirst(findFunc(parse(filepath.Join(root, m.msgServer)), "UpdateParams", "msgServer"))
 		sp := setParamsValidatesFirst(findFunc(parse(filepath.Join(root, m.paramsK)), "SetParams", "Keeper"))
 		vbf := findFunc(parse(filepath.Join(root, m.msgs)), "ValidateBasic", "MsgUpdateParams")
@@ -227,14 +234,24 @@ func main() {
 			m.name, b(up), b(sp), b(vb), b(vg), b(ig))
 	}
 	sb.WriteString("]\n\n")
-	fp := parse("/repo/modules/farm/types/params.go")
+	fp := parse(filepath.Join(repo, "modules/farm/types/params.go"))
 	val := findFunc(fp, "Validate", "Params")
 	tr := findFunc(fp, "validateTaxRate", "")
 	farmTax := val != nil && callsSuffix(val.Body, "validateTaxRate")
 	nilGuard := tr != nil && callsSuffix(tr.Body, "IsNil")
 	fmt.Fprintf(&sb, "/-- farm `Params.Validate` calls `validateTaxRate` -/\ndef farmValidatesTaxRate : Bool := %s\n\n", b(farmTax))
-	fmt.Fprintf(&sb, "/-- farm `validateTaxRate` rejects an unset decimal before comparing it -/\ndef farmTaxRateNilGuard : Bool := %s\n\nend Irismod.Gen.Handlers\n", b(nilGuard))
+	fmt.Fprintf(&sb, "/-- farm `validateTaxRate` rejects an unset decimal before comparing it -/\ndef farmTaxRateNilGuard : Bool := %s\n\n", b(nilGuard))
 	fmt.Fprintf(&tx, "farm\tfarmValidatesTaxRate=%s\tfarmTaxRateNilGuard=%s\n", b(farmTax), b(nilGuard))
+	// fee denominations: does coinswap Params.Validate / token validateIssueTokenBaseFee call sdk.ValidateDenom
+	cv := findFunc(parse(filepath.Join(repo, "modules/coinswap/types/params.go")), "Validate", "Params")
+	csDen := cv != nil && callsSuffix(cv.Body, "ValidateDenom")
+	tv := findFunc(parse(filepath.Join(repo, "modules/token/types/v1/params.go")), "validateIssueTokenBaseFee", "")
+	tkDen := tv != nil && callsSuffix(tv.Body, "ValidateDenom")
+	fmt.Fprintf(&sb2, "/-- coinswap `Params.Validate` validates the pool-creation-fee denomination -/\ndef coinswapValidatesFeeDenom : Bool := %s\n\n", b(csDen))
+	fmt.Fprintf(&sb2, "/-- token `validateIssueTokenBaseFee` validates the base-fee denomination -/\ndef tokenValidatesFeeDenom : Bool := %s\n\n", b(tkDen))
+	fmt.Fprintf(&tx, "denoms\tcoinswapValidatesFeeDenom=%s\ttokenValidatesFeeDenom=%s\n", b(csDen), b(tkDen))
+	sb.WriteString(sb2.String())
+	sb.WriteString("end Irismod.Gen.Handlers\n")
 	if err := os.WriteFile(outLean, []byte(sb.String()), 0o644); err != nil {
 		fmt.Fprintln(os.Stderr, err)
 		os.Exit(3)
